@@ -19,7 +19,8 @@ LEVEL_TEXT = ('Seeded differential runtime check. ToNNX: hand-written Linen fami
               'independent Linen probe module). Conversions: generated Linen variable trees / NNX attribute trees are round-tripped both ways.'
               ' Further streams: nnx sow inside ToLinen, ToNNX inside an NNX parent that passes mutable=, a ToLinen'
               ' instance used several times, custom AxisMetadata boxes, namespace collisions (known finding K5).'
-              ' Round e/f: default_only rngs, tolinen.hooked, tolinen.lifted_sharding, tolinen.falsy_meta, tolinen.restored_without_init.')
+              ' Round e/f: default_only rngs, tolinen.hooked, tolinen.lifted_sharding, tolinen.falsy_meta, tolinen.restored_without_init.'
+              ' Round g: negative stacking axes in tolinen.lifted_sharding.')
 LEVEL_NOTE = ('Trusts nnx.Rngs stream semantics (key = fold_in(stream key, count)), Linen make_rng path folding (through a probe module at the '
               'same scope path) and the comparison helpers in vf/props/c18.py. Outside jit comparisons are bit-exact; under nnx.jit '
               'core.TOL_SAME_PROGRAM on well-conditioned programs (no BatchNorm division).')
